@@ -47,9 +47,12 @@ def space(tier):
         'what': 'binary operators x ordered type pairs x boundary values',
         'operators': list(E.A.BIN_OPS),
         'values': {k: v for k, v in (E.QUICK if tier == 'quick' else E.FULL).items()},
-        'forms': ['var'] if tier == 'quick' else ['var', 'lit']}))
+        'values_lit_const': E.LITQ if tier == 'quick' else {'lit': 'all values', 'const': E.QUICK},
+        'forms': ['var', 'lit', 'const'],
+        'guises': 'var: operands through variables (run-time instruction); lit: literal operands '
+                  '(compile-time evaluation at O1/O2); const: operands through CONST names'}))
     fams.append(('F2', E.f2_descs(tier), {
-        'what': 'unary - + NOT x types x boundary values (variables and literals); '
+        'what': 'unary - + NOT x types x boundary values (variables, literals and CONST names); '
                 'builtins x argument menus incl. illegal arguments',
         'builtins': sorted(set(d[2] for d in E.f2_descs(tier) if d[0] == 'F2b'))}))
     fams.append(('F4', E.f4_descs(tier), {
